@@ -509,7 +509,11 @@ def _c09_case(seed):
     files["core/__init__.py"] = ""
     files["core/api/__init__.py"] = ""
     files["core/api/v1/__init__.py"] = ""
-    files["core/api/v1/h.py"] = "from core.services.db import conn\nimport core.services\n"
+    files["core/api/v1/h.py"] = "from core.services.db import conn\n"
+    files["core/api/v1/g.py"] = "import core.util.text.fmt\n"
+    files["core/util/__init__.py"] = ""
+    files["core/util/text/__init__.py"] = ""
+    files["core/util/text/fmt.py"] = "import core.api\n"
     files["core/services/__init__.py"] = ""
     files["core/services/db/__init__.py"] = ""
     files["core/services/db/conn.py"] = f"import {ROOT}.core.api.v1\n"
